@@ -203,6 +203,6 @@ impl Area for VecArea {
         }
         stats.seen(lines, nontrivial || ref_vals.len() >= 2);
         if nontrivial { stats.hit("case:tuples-differing-only-in-split"); }
-        ExecOut { outs, fails }
+        ExecOut { outs, fails, model_lines: None }
     }
 }
